@@ -13,6 +13,7 @@
                speak about the C code, where a freed address can be handed out again: it is an assumption of the check.)
 -/
 import CelloProofs.Lemmas.LifeInv
+import Cello.LifecycleSrc
 
 namespace Cello.Life
 
@@ -30,6 +31,14 @@ def ghost (ops : List Op) : Ghost := grun Ghost.init St.init ops
 
 theorem inv_final (ops : List Op) (h : WellFormed ops) : Inv (ghost ops) (final ops) :=
   inv_run ops _ _ Inv.init h
+
+/-- **the code that exists is the code the theorems are about**: the translator reads from src/GC.c whether
+    `GC_Rem_Ptr` finalises a pending object it strikes off and whether `GC_Sweep` clears a pending slot before finalising
+    it (the two halves of fix 5c00ad8), and from GC.c/Alloc.c/Pointer.c/Thread.c the routes the model mirrors (`del_by`,
+    `Box_Del`, the stop checks, `GC_Del`, `Cello_Exit`, `Thread_Init_Run`, the `mitems` formula).  A source change that
+    flips any of them makes this theorem fail to build. -/
+theorem C06_current_source : sourceCfg = Cfg.current ∧ sourceShapeAsModelled = true := by
+  constructor <;> decide
 
 /-- **C06, at most once — every history, including stop/start windows.**  After any well-formed history (any
     interleaving of allocations, deletions, ownership links, collections with any marked set and any slot order, stop,
